@@ -1224,9 +1224,12 @@ result_t NumberDataType::parseInput(const string inputStr, unsigned int* parsedV
       const char* str = inputStr.c_str();
       char* strEnd = nullptr;
       if (m_divisor == 1) {
+        // hex notation is accepted, but leading zeros (e.g. of a fixed width value) do not denote octal notation
+        size_t digitPos = (str[0] == '-' || str[0] == '+') ? 1 : 0;
+        int base = (str[digitPos] == '0' && (str[digitPos+1] == 'x' || str[digitPos+1] == 'X')) ? 16 : 10;
         if (hasFlag(SIG)) {
           errno = 0;
-          long signedValue = strtol(str, &strEnd, 0);
+          long signedValue = strtol(str, &strEnd, base);
           if (errno == ERANGE
           || (m_bitCount != 32 ? (signedValue < 0L ? (signedValue < -(1L << (m_bitCount - 1)))
             : (signedValue >= (1L << (m_bitCount - 1))))
@@ -1241,7 +1244,7 @@ result_t NumberDataType::parseInput(const string inputStr, unsigned int* parsedV
           }
         } else {
           errno = 0;
-          unsigned long unsignedValue = strtoul(str, &strEnd, 0);
+          unsigned long unsignedValue = strtoul(str, &strEnd, base);
           if (errno == ERANGE || unsignedValue > UINT32_MAX || (strEnd != str && inputStr.find('-') != string::npos)
           || (m_bitCount != 32 && unsignedValue >= (1UL << m_bitCount))) {
             return RESULT_ERR_OUT_OF_RANGE;
